@@ -127,7 +127,7 @@ def mean_points(rng, name, L, n, lits):
             pts.add(Lf * (1.0 - _logu(rng, -12, 0)))
         pts |= {Lf * k / 64.0 for k in range(1, 64, 3)}
         half = Lf / 2
-        pts |= {half, np.nextafter(half, 0), np.nextafter(half, Lf), np.nextafter(Lf, 0), np.nextafter(0.0, 1.0),
+        pts |= {half, np.nextafter(half, 0), np.nextafter(half, Lf), np.nextafter(Lf, 0),
                 1e-300, 1e-100, Lf * (1 - 2.0 ** -40)}
         pts |= {w for v in lits for w in neighbours(v)}
         pts = {p for p in pts if 0.0 < p < Lf}
@@ -167,6 +167,11 @@ def _unmodelled(name, fn, x):
     """arguments at which the model deliberately does not mirror NumPy (documented in Model/Links.lean, Model/XR.lean):
     * `(-inf) ** -0.5` is +0 for C `pow`, while the model's `1 / sqrt(-inf)` is NaN (inv_squared.mu, far outside its range);
     * overflow of `exp` is not part of the XR algebra (finite results are exact there)."""
+    if fn != 'link' and math.isinf(x):
+        # mu / gradient at +-inf: not a behaviour the property constrains (it speaks about finite predictors and means
+        # of the open domain); left out so that e.g. a numerically stable sigmoid is not reported.  `link` is compared
+        # at every special value: its NaN class is the check_y decision.
+        return True
     return name == 'inv_squared' and fn == 'mu' and x == -math.inf
 
 
@@ -216,7 +221,7 @@ def oracle_point(link, dist, name, L, m=None, lp=None):
         elif name == 'log':
             ok_range = -700 <= lp <= 700
         elif name == 'logit':
-            ok_range = -700 <= lp <= 20
+            ok_range = -700 <= lp <= 30
         elif name == 'inverse':
             ok_range = 1e-100 <= abs(lp) <= 1e100
         else:
@@ -297,7 +302,7 @@ def run_values(ctx, pg):
     so = 'links.oracle'
     ctx.stream(st, 'Link.link / mu / gradient vs Float model (bit-equal or 1e-11 relative), 5 links x levels {1,2,5,17}')
     ctx.stream(so, 'real code only: mu(link m)=m, link(mu lp)=lp, central-difference derivative = gradient, strict monotonicity')
-    n = 60 if ctx.tier == 'quick' else 1500
+    n = 150 if ctx.tier == 'quick' else 4000
     lits = harvest_literals([LINKS[k] for k in LINK_NAMES])
     ctx.extra['harvested_literals'] = lits
     jobs, ops = [], []
@@ -331,6 +336,14 @@ def run_values(ctx, pg):
                 exact += 1
             if _same(iv, mv, scale):
                 continue
+            if fn == 'mu' and name in ('log', 'logit') and math.isfinite(x) and abs(x) > 700:
+                # exp over/underflows here (the coded logit mean is NaN beyond lp = 709.78): not a region the property
+                # speaks about; any value inside the closed mean space is tolerated so that a numerically stable
+                # rewrite is not reported
+                fv = float(iv)
+                if fv == fv and fv >= 0 and (name == 'log' or fv <= L):
+                    ctx.count('values: overflow region, differs from model but inside mean space', name)
+                    continue
             # disagreement: does the property itself fail here (real code only)?  re-executed, x10 margin
             iv2 = float(_call(link, fn, [x], dist)[0])
             if _same(iv2, mv, scale, tol=10 * TOL):
@@ -420,17 +433,17 @@ def run_special(ctx, pg):
             ctx.case(st, sig, nontrivial=(name != 'identity'), sample=dict(link=name, levels=L, fn=fn, x=repr(x), impl=repr(float(iv)), model=tk))
             mc = tk.split(':')[0]
             ok = _cls(iv) == mc
-            if ok and ':' in tk:
+            if mc == 'fin' and ':' in tk:
+                # exact rational value of the model; finite exact values outside the double range over/underflow in
+                # NumPy (not modelled by XR): only sign and hugeness / smallness are compared there
                 q = common.s2q(tk.split(':')[1])
-                mv = float(q)
-                # finite exact values far outside the double range are not comparable (over/underflow is not modelled)
-                if 1e-290 < abs(mv) < 1e290 or mv == 0:
-                    ok = _same(iv, mv)
-            if not ok and _cls(iv) in ('inf', '-inf', 'fin') and mc == 'fin' and ':' in tk:
-                # overflow / underflow of a finite exact value: not a special-value disagreement
-                mv = common.s2q(tk.split(':')[1])
-                if abs(mv) > 10 ** 290 or (mv != 0 and abs(mv) < common.Fraction(1, 10 ** 290)):
-                    ok = True
+                fv = float(iv)
+                if abs(q) > 10 ** 290:
+                    ok = (fv == fv) and abs(fv) > 1e280 and (fv > 0) == (q > 0)
+                elif q != 0 and abs(q) < common.Fraction(1, 10 ** 290):
+                    ok = (fv == fv) and abs(fv) < 1e-280
+                else:
+                    ok = _cls(iv) == 'fin' and _same(fv, float(q))
             if ok:
                 continue
             case = dict(link=name, levels=L, fn=fn, x=repr(x), x_bits=common.f2bits(x))
@@ -450,7 +463,7 @@ def run_special(ctx, pg):
 # ---------------------------------------------------------------------------------------------
 # stream 3: check_y and get_link_domain
 # ---------------------------------------------------------------------------------------------
-def target_arrays(rng, name, L, count):
+def target_arrays(rng, name, L, count, lits=()):
     """target arrays: in-domain, boundary, +-1 ulp, out-of-domain, specials, empty, 2-D, integer dtype"""
     Lf = float(L)
     inside = [0.5 * Lf, 0.25, Lf * 0.75, 1e-9, Lf * (1 - 1e-9), 1e-300]
@@ -463,6 +476,10 @@ def target_arrays(rng, name, L, count):
                2 * Lf, -1e300, 1e300]
     special = [math.nan, math.inf, -math.inf]
     arrs = [[], [0.0], [Lf], [-0.0], [0.5 * Lf]]
+    litpts = sorted({w for v in lits for w in neighbours(v)} | {Lf * v for v in lits} | {Lf - v for v in lits})
+    outside = outside + litpts        # literal-seeded: thresholds introduced by an edit become test points
+    for v in litpts:
+        arrs.append([v])
     for v in boundary + outside + special:
         arrs.append([v])
         arrs.append([0.5 * Lf, v, 0.25 * Lf])
@@ -483,7 +500,10 @@ def run_check_y(ctx, pg):
     from pygam import utils
     st = 'links.check_y'
     ctx.stream(st, 'utils.check_y verdict (ValueError / returns the ravelled array) and utils.get_link_domain vs checkY / getLinkDomain model')
-    count = 12 if ctx.tier == 'quick' else 150
+    count = 40 if ctx.tier == 'quick' else 600
+    lits = harvest_literals([utils.check_y, utils.get_link_domain, utils.check_array] + [LINKS[k] for k in LINK_NAMES])
+    lits = [v for v in lits if abs(v) <= 1e6]
+    ctx.extra['harvested_literals_check_y'] = lits
     jobs, ops = [], []
     for name in LINK_NAMES:
         for L in LEVELS:
@@ -492,7 +512,7 @@ def run_check_y(ctx, pg):
             if name != 'logit':
                 dn = sorted(DISTRIBUTIONS)[LEVELS.index(L) % len(DISTRIBUTIONS)]
                 dists.append((dn, DISTRIBUTIONS[dn]()))
-            for arr in target_arrays(rng, name, L, count):
+            for arr in target_arrays(rng, name, L, count, lits):
                 shape = rng.choice(['1d', '1d', '2d', 'list', 'int']) if arr else '1d'
                 for dname, dist in dists:
                     jobs.append(('y', name, L, dname, dist, arr, shape))
@@ -589,7 +609,7 @@ def run_fit(ctx, pg):
     for cls, name, dn in (('LinearGAM', 'identity', 'normal'), ('LogisticGAM', 'logit', 'binomial'), ('PoissonGAM', 'log', 'poisson'),
                           ('GammaGAM', 'log', 'gamma'), ('InvGaussGAM', 'log', 'inv_gauss'), ('ExpectileGAM', 'identity', 'normal')):
         configs.append((name, dn, 1, cls, (lambda cls=cls: getattr(pygam, cls)(s(0, n_splines=4), max_iter=1))))
-    reps = 1 if ctx.tier == 'quick' else 4
+    reps = 1 if ctx.tier == 'quick' else 10
     jobs, ops = [], []
     for name, dn, L, label, make in configs:
         rng = ctx.subrng('fit', label)
